@@ -83,6 +83,20 @@ def sym_checks(ctx, name, obj, vl, vt, freq, cj, tol, periodic_tol=None, shapes=
             rs = obj(a + delta, b + delta, freq)
             if max(np.abs(rs[k] - r[k]).max() for k in KEYS) > tol * scale:
                 ctx.violate("side-drilled hole: values depend on more than the difference of the angles", cj, {"kind": "difference_only", "scatterer": name})
+        # whole-radian angles held as integers (a Python int, an integer array) denote the same angles as their float values
+        if (sa, sb) == shape_list[0]:
+            ai, bi = rng.integers(-6, 7, size=sa), rng.integers(-6, 7, size=sb)
+            rf = obj(ai.astype(float), bi.astype(float), freq)
+            for lab, (aa, bb) in (("integer arrays", (ai, bi)), ("an integer scattered angle only", (ai.astype(float), bi)), ("Python ints", (int(ai.ravel()[0]), int(bi.ravel()[0])))):
+                try:
+                    ri = obj(aa, bb, freq)
+                except Exception as e:
+                    ctx.violate(f"{name}: {type(e).__name__} for angles given as {lab}", cj, {"kind": "integer_angles", "scatterer": name})
+                    continue
+                ctx.count(f"{name}:integer_angles")
+                ref_i = {k: (np.asarray(rf[k]).ravel()[0] if lab == "Python ints" else rf[k]) for k in KEYS}
+                if any(np.abs(np.asarray(ri[k], dtype=complex) - ref_i[k]).max() > tol * scale for k in KEYS):
+                    ctx.violate(f"{name}: angles given as {lab} give other values than the same angles as floats", cj, {"kind": "integer_angles", "scatterer": name})
         # subsets of keys
         # every non-empty subset of the four keys on the first shape, three subsets on the others
         import itertools
